@@ -451,7 +451,10 @@ def create_for_single_files_subcommand(
         if not os.path.isabs(path):
             path = os.path.join(os.getcwd(), path)
         if os.path.isdir(path):
-            for folder_path, children in post_order_lexicographic(path, session.ignore_spec.get_path_spec()):
+            # patterns are relative to the root folder of the history, not to the folder given with -sf
+            for folder_path, children in post_order_lexicographic(
+                path, session.ignore_spec.get_path_spec(), root_path
+            ):
                 for item_name, is_dir in children:
                     file_path = os.path.join(folder_path, item_name)
                     if is_dir:
@@ -1475,8 +1478,11 @@ def test_for_missing_files(
     ignore_path_spec = ignore_spec.get_path_spec()
     # update to exclude our ignored files
     # directory patterns like "sub/" only match paths of (recorded) directories, given with a trailing separator
+    # patterns are matched against paths relative to the root folder (see post_order_lexicographic)
     not_found_paths = [
-        x for x in not_found_paths if not ignore_path_spec.match_file(x + os.sep if x in directory_paths else x)
+        x
+        for x in not_found_paths
+        if not ignore_path_spec.match_file(os.path.relpath(x, root_path) + (os.sep if x in directory_paths else ""))
     ]
     if len(not_found_paths) == 0:
         return None
